@@ -13,9 +13,9 @@ echo "== files changed"; git diff --stat
 echo "== demo WITH change (expect FAIL)"
 go test -vet=off -count=1 -timeout 5m -run 'TestSeedDemo$' . 2>&1 | tail -5; 
 echo "== demo WITHOUT change (expect ok)"
-git stash -q -- $(git diff --name-only)
+git apply -R $dst/patch.diff
 go test -vet=off -count=1 -timeout 5m -run 'TestSeedDemo$' . 2>&1 | tail -3
-git stash pop -q
+git apply $dst/patch.diff
 echo "== suite WITH change (expect ok; flaky under load: TestStressManyClients, TestClientStreamedBodyDoesNotBuffer)"
 go build ./... && go test -vet=off -count=1 -timeout 25m -skip 'TestSeedDemo$' ./... 2>&1 | grep -v "^\s*$" | grep -a "^ok\|^FAIL\|^--- FAIL\|panic" | head
 } > $dst/confirm.log 2>&1
